@@ -97,6 +97,7 @@ func RunOne(o core.RunOpts) (res *core.RunResult) {
 	}
 	lg := &core.Log{Keep: o.KeepLog, MaxKeep: 4000}
 	st := core.NewStats()
+	st.Only = o.Prop
 	res = &core.RunResult{Seed: o.Seed, Prop: o.Prop, Stats: st}
 	e := &Env{Ch: ch, Log: lg, St: st, Prop: o.Prop, Seed: o.Seed, Shared: map[string]any{}}
 	scratch, err := os.MkdirTemp(o.Scratch, "run")
@@ -168,7 +169,9 @@ func RunOne(o core.RunOpts) (res *core.RunResult) {
 			a.OnBlock(e, blk)
 		}
 		for _, m := range e.Monitors {
+			st.Cur = m.Prop()
 			m.OnBlock(e, blk)
+			st.Cur = ""
 			if e.Viol != nil {
 				break
 			}
@@ -187,6 +190,7 @@ func RunOne(o core.RunOpts) (res *core.RunResult) {
 	res.Violation = e.Viol
 	for _, m := range e.Monitors {
 		if m.Prop() == e.Prop {
+			st.Cur = m.Prop()
 			res.NonTrivial = m.NonTrivial(e)
 		}
 	}
